@@ -2,10 +2,10 @@
    Property theorems only.  Model: model/SpWeights.v = crypto/stateproof/weights.go
    (getSubExpressions, numReveals, verifyWeights) and the rejection sampling of
    coinGenerator.go, over Z.  lnProvenWeight (the float64 LnIntApproximation output) is an
-   arbitrary input.  All statements are for every (signedWeight, lnProvenWeight,
-   strengthTarget); the only side condition, [numerator/denom + 1 < 2^64], is exactly "the
-   reveal count fits the uint64 the Go code truncates it to" and is shown necessary by
-   C38_prover_satisfies_verifier_refuted. *)
+   arbitrary input.  All statements are for every integer (signedWeight, lnProvenWeight,
+   strengthTarget), no side condition.  [numReveals] is the code with /verif/fixes/C38.patch;
+   for the code before the fix ([numReveals_unfixed], big.Int.Uint64 truncation) the first
+   theorem is false: C38_prover_satisfies_verifier_refuted. *)
 From Coq Require Import ZArith List Bool String.
 Import ListNotations.
 From Verif.lib Require Import Term.
@@ -16,8 +16,6 @@ Open Scope Z_scope.
 (* Whenever the prover decides the signed weight can prove the target (numReveals returns a
    count), that count satisfies the verifier's security inequality. *)
 Theorem C38_prover_satisfies_verifier : forall sw lnPW st n,
-  0 <= st ->
-  numerator sw st / denom sw lnPW + 1 < two64 ->
   numReveals sw lnPW st = WOk n ->
   verifyWeights sw lnPW n st = WOk tt.
 Proof. exact prover_satisfies_verifier_l. Qed.
@@ -36,8 +34,6 @@ Print Assumptions C38_verifier_exact.
    rejected, and n-1 is accepted exactly when the division was exact (so the prover's n is
    the least accepted count or that plus one). *)
 Theorem C38_verifier_rejects_smaller : forall sw lnPW st n,
-  0 <= st ->
-  numerator sw st / denom sw lnPW + 1 < two64 ->
   numReveals sw lnPW st = WOk n ->
   (forall m, 0 <= m < n - 1 -> verifyWeights sw lnPW m st = WErr ErrInsufficientSignedWeight) /\
   (verifyWeights sw lnPW (n - 1) st = WOk tt <-> numerator sw st mod denom sw lnPW = 0).
@@ -73,18 +69,26 @@ Theorem C38_coin_uniform : forall sw c z,
 Proof. exact coin_uniform_l. Qed.
 Print Assumptions C38_coin_uniform.
 
-(* The side condition cannot be dropped: on uint64 inputs where the exact quotient does not
-   fit 64 bits, numReveals returns the truncated count and the verifier rejects it.
+(* Before the fix the property is false on uint64 inputs: where the exact quotient does not
+   fit 64 bits, numReveals returned the truncated count and the verifier rejects it
    (signedWeight 2, lnProvenWeight 45425, strengthTarget = 45427^-1 mod 2^64; replayed on
-   the Go code by the harness.  Consensus uses strengthTarget = 256, far from this.) *)
+   the Go code by the harness; consensus uses strengthTarget = 256).  The fixed code answers
+   ErrTooManyReveals there, and is identical wherever the count fits 64 bits. *)
 Theorem C38_prover_satisfies_verifier_refuted :
   exists sw lnPW st n,
     0 < sw < two64 /\ 0 <= lnPW < two64 /\ 0 <= st < two64 /\
-    numReveals sw lnPW st = WOk n /\
+    numReveals_unfixed sw lnPW st = WOk n /\
     verifyWeights sw lnPW n st = WErr ErrInsufficientSignedWeight /\
-    two64 <= numerator sw st / denom sw lnPW.
+    two64 <= numerator sw st / denom sw lnPW /\
+    numReveals sw lnPW st = WErr ErrTooManyReveals.
 Proof. exact prover_satisfies_verifier_refuted_l. Qed.
 Print Assumptions C38_prover_satisfies_verifier_refuted.
+
+Theorem C38_fix_conservative : forall sw lnPW st,
+  0 <= st -> numerator sw st / denom sw lnPW + 1 < two64 ->
+  numReveals sw lnPW st = numReveals_unfixed sw lnPW st.
+Proof. exact numReveals_fix_conservative. Qed.
+Print Assumptions C38_fix_conservative.
 
 (* Soundness of the oracle used by [check] on implementation observations: it is the
    verifier's acceptance condition, computed without log2. *)
@@ -96,7 +100,6 @@ Print Assumptions C38_spec_ok_sound.
 (* Non-vacuity: consensus-like parameters meet the hypotheses and give a non-trivial count. *)
 Example C38_nonvacuous :
   let sw := 2 ^ 40 in let lnPW := 1738076 (* ~ 2^16 * ln(0.3 * 2^40) *) in let st := 256 in
-  numerator sw st / denom sw lnPW + 1 < two64 /\
   numReveals sw lnPW st = WOk 148 /\
   verifyWeights sw lnPW 148 st = WOk tt /\
   verifyWeights sw lnPW 147 st = WErr ErrInsufficientSignedWeight.
